@@ -391,6 +391,36 @@ def c04(ctx):
                         pass
                 elif r is not None:
                     triage_wire(ctx, 'C04', lang, it, 'decode-error', 'decoder fails on a message with a length field: %s' % r[1][:200], rep)
+        # second pass: the encoder appends to a buffer that is in use (two copies of message 0 written, the first one consumed by the
+        # emitted decoder, then message i appended); the readable bytes must be message 0 followed by message i, length field included.
+        # protocols with a checksum field are left out (what "the bytes that precede it in the buffer" means there is a C06 question);
+        # Rust is left out (its decoder is a constructor over another buffer type)
+        if lang != 'rust':
+            for it in items:
+                out = outs.get(it.tag)
+                if out is None or out.build != 'ok' or 'k:cksum' in it.feats or len(it.msgs) < 2:
+                    continue
+                ids = [i for i in range(len(it.msgs)) if len(it.ref[i][0]) < 4096][:4]
+                o2 = B.run(it, [('A', i) for i in ids], [])
+                if o2.crash:
+                    continue
+                for i in ids:
+                    got = o2.appended.get(i)
+                    if got is None or (isinstance(got, tuple) and got[0] == 'SKIP'):
+                        continue
+                    ctx.evaluated(1, key=(it.tag, lang, i, 'append'))
+                    ctx.counters['append-to-used-buffer-encodes'] += 1
+                    want = it.ref[0][0] + it.ref[i][0]
+                    rep = {'message': msg_json(it.msgs[i][1]), 'mode': 'encode m0 twice, decode one, encode this message into the same buffer', 'expected_hex': want.hex(), 'got': got if isinstance(got, str) else str(got)}
+                    if isinstance(got, tuple):
+                        triage_wire(ctx, 'C04', lang, it, 'encode-error', 'encoding into a buffer in use fails: %s' % got[1][:200], rep)
+                        continue
+                    gb = bytes.fromhex(got)
+                    if gb != want:
+                        d = wire.first_diff(gb, want)
+                        k = len(it.ref[0][0])
+                        where = ('the first message (already in the buffer) at offset %d' % d) if d < k else it.ref[i][1].locate(d - k)
+                        triage_wire(ctx, 'C04', lang, it, 'length-field-wrong' if ('(' in where and 'len' in where) or d < k else 'wrong-bytes', 'appending to a buffer in use: first differing byte in %s' % where, rep)
     it = items[0]
     ctx.sample({'dsl': it.text[:700], 'message': msg_json(it.msgs[0][1]), 'reference_hex': it.ref[0][0].hex(),
                 'length_fields': [(e['path'], e['off'], e['len'], e['value']) for e in it.ref[0][1].items if e['fkind'].startswith('len:')]})
